@@ -35,7 +35,10 @@ SeqSet(s) == {s[i] : i \in 1..Len(s)}
 RKnown(rs, key) == \E i \in 1..Len(rs) : rs[i].key = key
 RGet(rs, key)   == rs[CHOOSE i \in 1..Len(rs) : rs[i].key = key /\ \A k \in (i + 1)..Len(rs) : rs[k].key # key].val
 RSet(rs, key, v) == Append(SelectSeq(rs, LAMBDA r : r.key # key), [key |-> key, val |-> v])
-RAsSet(rs)      == {<<rs[i].key, rs[i].val>> : i \in 1..Len(rs)}
+\* the instruction pointer is compared as a number: the tool keeps it address-wide (8 bytes) after a fall-through and
+\* XLEN-wide after a jump, which is the same register value on RV32
+NormReg(k, v)   == IF k = IPKey THEN Strip(v) ELSE v
+RAsSet(rs)      == {<<rs[i].key, NormReg(rs[i].key, rs[i].val)>> : i \in 1..Len(rs)}
 
 \* ---- memory: sequence of [k, a, b, img], newest first; a is a stripped address
 MKnown(mem, k, a) == \E i \in 1..Len(mem) : mem[i].k = k /\ mem[i].a = a
@@ -155,7 +158,7 @@ MemReadOf(name, wb, m, w) ==
     ELSE <<>>
 
 AccSet(accs) == {<<accs[i].key, Strip(accs[i].addr), accs[i].val>> : i \in 1..Len(accs)}
-KvSet(kvs)   == {<<kvs[i].key, kvs[i].val>> : i \in 1..Len(kvs)}
+KvSet(kvs)   == {<<kvs[i].key, NormReg(kvs[i].key, kvs[i].val)>> : i \in 1..Len(kvs)}
 KvKeys(kvs)  == {kvs[i].key : i \in 1..Len(kvs)}
 KvGet(kvs, key) == kvs[CHOOSE i \in 1..Len(kvs) : kvs[i].key = key].val
 
